@@ -10,6 +10,7 @@ import (
 	"verifharness/internal/drive"
 	"verifharness/internal/fw"
 	"verifharness/internal/rng"
+	"verifharness/internal/spec"
 )
 
 func init() { register(&Monitor{ID: "C18", Run: runC18, Self: selfC18}) }
@@ -200,9 +201,22 @@ func c18IntFamily(c *fw.Ctx, vals []any) {
 }
 
 func c18Numeric(c *fw.Ctx, vals []any, class int) {
-	in := func() string { return "numeric list " + showNums(vals) }
+	c18NumericHist(c, nil, vals, class, 0, spec.Hash(showNums(vals)), "")
+}
+
+// c18NumericHist checks all aggregates of a numeric list; with l != nil the list is an existing one whose current
+// content (vals, as observed through Get) is the reference.
+func c18NumericHist(c *fw.Ctx, l at.List, vals []any, class int, depth int, rr uint64, histNote string) {
+	in := func() string {
+		if histNote != "" {
+			return "numeric list " + showNums(vals) + " (reached from " + histNote + ")"
+		}
+		return "numeric list " + showNums(vals)
+	}
 	guard(c, in, func() {
-		l := at.NewList(vals...)
+		if l == nil {
+			l = at.NewList(vals...)
+		}
 		before := top(l)
 		n := len(vals)
 		c.Count("numeric_lists")
@@ -291,10 +305,59 @@ func c18Numeric(c *fw.Ctx, vals []any, class int) {
 		if !sameTop(before, top(l)) {
 			c.Violate("aggregate-modifies-list", in(), showTop(before), showTop(top(l)))
 		}
+		// history: the aggregates were just computed; now modify the list (also through operations that are not
+		// permutations for every input, like Sort on a mixed numeric list) and ask again
+		if depth < 2 {
+			var desc string
+			n := l.Count()
+			nv := func() any {
+				if len(vals) > 0 && rr%2 == 0 {
+					return vals[int(rr/2)%len(vals)]
+				}
+				return float64(int(rr%17)) / 4
+			}
+			pan, _ := drive.Protect(func() {
+				switch rr % 7 {
+				case 0:
+					l.Sort()
+					desc = "Sort()"
+				case 1:
+					l.Reverse()
+					desc = "Reverse()"
+				case 2:
+					l.Add(nv())
+					desc = "Add(v)"
+				case 3:
+					l.Insert(int(rr/7)%(n+1), nv())
+					desc = "Insert(i, v)"
+				case 4:
+					l.Replace(int(rr/7)%n, nv())
+					desc = "Replace(i, v)"
+				case 5:
+					l.Delete(int(rr/7) % n)
+					desc = "Delete(i)"
+				default:
+					l.SetTF(fmt.Sprintf("#%d", int(rr/7)%(n+1)), nv())
+					desc = "SetTF(#i, v)"
+				}
+			})
+			if !pan && l.Count() > 0 {
+				now := top(l).([]any)
+				numeric := true
+				for _, e := range now {
+					switch e.(type) {
+					case int, float64:
+					default:
+						numeric = false
+					}
+				}
+				if numeric {
+					c.Count("aggregates_after_mutation")
+					c18NumericHist(c, l, now, 1, depth+1, rr/11+3, showNums(vals)+" after the aggregates were computed once and then "+desc)
+				}
+			}
+		}
 	})
-	if len(vals) > 0 {
-		return
-	}
 }
 
 func selfC18(s *fw.SelfCheck) {
